@@ -1,6 +1,11 @@
 package sim
 
-import "time"
+import (
+	"encoding/json"
+	"fmt"
+	"os"
+	"time"
+)
 
 // Tape-level minimisation. The three tapes are shrunk separately (schedule first,
 // then faults, then workload), accepting a candidate only when the same violation
@@ -30,7 +35,12 @@ func Shrink(c Checker, tv TapeVals, id string, opt RunOpt, maxEvals int, maxTime
 		}
 		st.Evals++
 		tp := ReplayTapes(cand)
+		t0 := time.Now()
 		o := SafeRun(c, tp, opt)
+		if d := time.Since(t0); d > 5*time.Second && os.Getenv("VERIF_PROGRESS") != "" {
+			b, _ := json.Marshal(cand)
+			fmt.Fprintf(os.Stderr, "PROGRESS slow shrink evaluation: %.1f s steps=%d tapes=%s\n", d.Seconds(), o.Steps, b)
+		}
 		if o.HarnessErr != "" || !hasViolation(o, id) {
 			return false
 		}
